@@ -79,18 +79,35 @@ def run_contract_task(task):
             out["dropped"] = sorted(eng.dropped)
         except OutsideSubset as e:
             prove_error = str(e)
-        need_refute = prove_error is not None or any(r["status"] != "proved" for r in out["prove"])
+        def _open(r):
+            if r["kind"] == "canary":
+                return False  # canaries are judged per clause below
+            return r["status"] != "proved"
+
+        canary_clauses = {}
+        for r in out["prove"]:
+            if r["kind"] == "canary":
+                canary_clauses.setdefault(r["clause"], []).append(r["status"])
+        canary_open = any("refuted" not in sts for sts in canary_clauses.values())
+        need_refute = prove_error is not None or any(_open(r) for r in out["prove"]) or canary_open
         if need_refute and opts.get("refute", True):
             # refute mode needs no loop invariants: loops are unrolled 0..K times, so it still decides (boundedly) when
             # the proof attempt left the accepted subset (e.g. an invariant that names a local which was renamed)
             unroll = c.refute_unroll if c.refute_unroll is not None else opts.get("unroll", 2)
             eng2 = _mk_engine(repo, contracts, ftypes, mods, "refute", unroll)
+            eng2.deadline = time.time() + opts.get("refute_budget_s", 45)
             try:
-                summ2 = verify_function(eng2, c)
+                try:
+                    summ2 = verify_function(eng2, c)
+                except OutsideSubset as e:
+                    # keep the obligations of the paths explored so far (bounded search, any refutation found is real)
+                    out["refute_error"] = str(e)
+                    fi_ = repo.func(fq)
+                    summ2 = {"func": fq, "paths": 0, "outcomes": [], "obligations": len(eng2.obligs), "spec_warnings": [], "sha": fi_.sha() if fi_ else "", "span": fi_.span() if fi_ else (0, 0), "file": fi_.module.path if fi_ else ""}
                 out["refute_summary"] = summ2
                 if out["summary"] is None:
                     out["summary"] = dict(summ2, obligations=0)
-                wanted = {r["clause"] for r in out["prove"] if r["status"] != "proved"}
+                wanted = {r["clause"] for r in out["prove"] if _open(r)} | {cl for cl, sts in canary_clauses.items() if "refuted" not in sts}
                 todo = [ob for ob in eng2.obligs if prove_error is not None or ob.meta.get("clause") in wanted]
                 todo = [ob for ob in todo if ob.meta.get("kind") not in ("stable",) or prove_error is None]
                 parallel_discharge(todo, opts.get("timeout_ms", 20000), opts.get("fork", 4))
